@@ -38,8 +38,18 @@ import traceback
 
 ROOT = os.path.dirname(os.path.dirname(os.path.abspath(__file__)))
 REPO = os.environ.get("VERIF_REPO", "/repo")
-EVIDENCE_DIR = os.path.join(ROOT, "evidence")
-REPLAY_DIR = os.path.join(ROOT, "replays")
+# VERIF_REPO=<dir> points the checks at another checkout (a scratch worktree with a seeded change);
+# evidence/replays then go to VERIF_OUT (default: a directory next to that checkout) so that the
+# committed evidence of /verif is only ever written by runs against /repo itself.
+if os.path.realpath(REPO) != "/repo":
+    _OUT = os.environ.get("VERIF_OUT", os.path.realpath(REPO).rstrip("/") + ".verif_out")
+else:
+    _OUT = ROOT
+EVIDENCE_DIR = os.path.join(_OUT, "evidence")
+REPLAY_DIR = os.path.join(_OUT, "replays")
+if os.path.realpath(REPO) != "/repo":
+    sys.path.insert(0, os.path.realpath(REPO))
+    os.environ["PYTHONPATH"] = os.path.realpath(REPO) + os.pathsep + os.environ.get("PYTHONPATH", "")
 FINDINGS = os.path.join(ROOT, "known_findings.json")
 
 
